@@ -247,6 +247,9 @@ def run(ctx):
     ctx.check(v is not None and "numeric_limits" in rm.text(init) and "max()" in rm.text(init), "reset-writes-max", "value-shape", rm.loc(), "reset writes max", "reset writes " + (rm.text(init) if v else "?"))
 
     # ------------------------------------------------ guard polarity (sibling agreement)
+    # the swap validation judges the EFFECTIVE utilisation: its fold over the ancestors is part of this property too
+    from .C15 import effective_swap_scheme
+    effective_swap_scheme(ctx)
     vs = ctx.fn1("Oomd::Senpai::validateSwap")
     last = [r for r in returns(vs) if "effective_swap_util_pct_opt" in ret_text(vs, r)]
     ctx.counters["validateSwap_final_returns"] = len(last)
